@@ -31,7 +31,8 @@ func init() {
 		Batches:     func(tier string) int { return 16 },
 		Require: func(tier string) map[string]int64 {
 			return map[string]int64{"calls": 5000, "events_seen": 5000, "replay_pairs": 20000, "update_events_applied": 1000, "zero_event_calls": 1000, "aborted_txn": 30, "committed_txn": 30, "drop_events": 50,
-				"retention_cases": 100000, "retention_removed_some": 10000, "retention_engine_commits": 200}
+				"retention_cases": 100000, "retention_removed_some": 10000, "retention_engine_commits": 200,
+				"engine_txn_steps": 200, "directed_txn_aborted": 30, "directed_txn_committed": 50, "late_failures_in_txn": 60, "txn_outside_checks": 300}
 		},
 		Exhaustive: false,
 		Run:        runC08,
@@ -201,6 +202,7 @@ func eventID(ev bson.D) string { return string(gen.ValueBytes(ref.GetPath(ev, "_
 func runC08(c *fw.Ctx) {
 	c08Retention(c)
 	c08RetentionEngine(c)
+	c08Transactions(c)
 	nhist := c.N(480, 10000) / c.NBatches
 	for q := 0; q < nhist; q++ {
 		idx := c.Batch*nhist + q
